@@ -1445,10 +1445,24 @@ def lib_correspondence(env, rep, impl):
     compare(env, rep, cases, lines, outs, what="ipv6-normalise")
 
 
+def oracle_no_uri(impl):
+    """no URI at all (what OSCORE's protect() hands in for the outer message of a request that has none): a
+    documented URL error like for the empty text, nothing else"""
+    kind, _ = impl.set_uri(None)
+    if kind != "err:IncompleteUrlError":
+        return "set_request_uri(None): %s, the documented answer to a missing URI is IncompleteUrlError" % kind
+    return ""
+
+
 def run(env, rep):
     aiocoap = env.import_repo()
     impl = Impl(aiocoap)
     rng = env.rng
+    case = {"kind": "N"}
+    rep.case(case, nontrivial=False)
+    v = oracle_no_uri(impl)
+    if v:
+        rep.oracle_fail(case, v, key="undocumented-exception:no-uri")
 
     corpus_texts, corpus_res = [], []
     for _, c in load_corpus("C16"):
@@ -1501,6 +1515,8 @@ def replay(env, case):
     aiocoap = env.import_repo()
     impl = Impl(aiocoap)
     k = case.get("kind")
+    if k == "N":
+        return oracle_no_uri(impl)
     if k == "T":
         exp = case.get("expect")
         return oracle_text(impl, case["text"], tuple(exp) if exp else None) or \
